@@ -1359,8 +1359,82 @@ fn c07(tier: &str, seed: u64) -> Value {
             }
         }
     }
+    // operator model for keyof: objects over the names a, b with no / a string / a number index signature, alone and
+    // in unions and intersections of two; keyof must hold exactly the keys the operand's members declare
+    // (union: common keys; intersection: all keys). A number against a string index signature is not judged
+    // (TypeScript says string | number, the repository's tests pin string).
+    let mut keyof_model_checks = 0u64;
+    {
+        use beff_core::ast::runtype::{IndexedProperty, Optionality};
+        #[derive(Clone, Copy, PartialEq)]
+        enum Ix { None, Str, Num }
+        let shapes: Vec<(Vec<&str>, Ix)> = vec![
+            (vec![], Ix::Str), (vec![], Ix::Num), (vec!["a"], Ix::None), (vec!["a", "b"], Ix::None),
+            (vec!["a"], Ix::Str), (vec!["a"], Ix::Num), (vec!["a", "b"], Ix::Num), (vec!["b"], Ix::Num), (vec!["b"], Ix::None),
+        ];
+        let mk = |names: &Vec<&str>, ix: Ix| -> Runtype {
+            let vs: BTreeMap<String, Optionality<Runtype>> = names.iter().map(|n| (n.to_string(), Optionality::Required(Runtype::boolean()))).collect();
+            let indexed_properties = match ix {
+                Ix::None => None,
+                Ix::Str => Some(Box::new(IndexedProperty { key: Runtype::string(), value: Optionality::Required(Runtype::boolean()) })),
+                Ix::Num => Some(Box::new(IndexedProperty { key: Runtype::number(), value: Optionality::Required(Runtype::boolean()) })),
+            };
+            Runtype::new(RuntypeKind::Object { vs, indexed_properties })
+        };
+        // Some(true/false) or None (= not judged)
+        let has_key = |names: &Vec<&str>, ix: Ix, v: &V| -> Option<bool> {
+            match v {
+                V::Str(s) => Some(names.contains(&s.as_str()) || ix == Ix::Str),
+                V::Num(_) => match ix { Ix::Num => Some(true), Ix::Str => None, Ix::None => Some(false) },
+                _ => Some(false),
+            }
+        };
+        let probes: Vec<V> = vec![V::Str("a".into()), V::Str("b".into()), V::Str("c".into()), V::Str("".into()), V::Num(0), V::Num(1), V::Null, V::Bool(true)];
+        let describe = |names: &Vec<&str>, ix: Ix| format!("{{{}{}}}", names.iter().map(|n| format!("{}: boolean; ", n)).collect::<String>(), match ix { Ix::None => "", Ix::Str => "[k: string]: boolean", Ix::Num => "[k: number]: boolean" });
+        let mut operands: Vec<(String, Runtype, Box<dyn Fn(&V) -> Option<bool>>)> = vec![];
+        for (n1, i1) in &shapes {
+            let (n1c, i1c) = (n1.clone(), *i1);
+            operands.push((describe(n1, *i1), mk(n1, *i1), Box::new(move |v| has_key(&n1c, i1c, v))));
+            for (n2, i2) in &shapes {
+                let (a1, b1, a2, b2) = (n1.clone(), *i1, n2.clone(), *i2);
+                operands.push((format!("{} | {}", describe(n1, *i1), describe(n2, *i2)), Runtype::new(RuntypeKind::AnyOf(vec![mk(n1, *i1), mk(n2, *i2)].into_iter().collect())), Box::new(move |v| match (has_key(&a1, b1, v), has_key(&a2, b2, v)) { (Some(x), Some(y)) => Some(x && y), (Some(false), None) | (None, Some(false)) => Some(false), _ => None })));
+                let (a1, b1, a2, b2) = (n1.clone(), *i1, n2.clone(), *i2);
+                operands.push((format!("{} & {}", describe(n1, *i1), describe(n2, *i2)), Runtype::new(RuntypeKind::AllOf(vec![mk(n1, *i1), mk(n2, *i2)].into_iter().collect())), Box::new(move |v| match (has_key(&a1, b1, v), has_key(&a2, b2, v)) { (Some(x), Some(y)) => Some(x || y), (Some(true), None) | (None, Some(true)) => Some(true), _ => None })));
+            }
+        }
+        for (label, rt, expected) in &operands {
+            let mut ctx = SemTypeContext::new();
+            let st = match rt.to_sem_type(&[], &mut ctx) {
+                Ok(s) => s,
+                Err(_) => continue,
+            };
+            let k = match std::panic::catch_unwind(std::panic::AssertUnwindSafe(|| ctx.keyof(st.clone()))) {
+                Ok(Ok(k)) => k,
+                Ok(Err(_)) => continue,
+                Err(_) => {
+                    out.violation("C07 keyof panicked".into(), format!("keyof {}", label), json!({"x": label}));
+                    continue;
+                }
+            };
+            for v in &probes {
+                if let Some(want) = expected(v) {
+                    keyof_model_checks += 1;
+                    if let Ok(got) = sem_mem(&ctx, &k, &SV::Val(v.clone()), 40) {
+                        if got != want {
+                            out.violation(
+                                "C07 keyof: the computed type does not hold exactly the keys the operand declares".into(),
+                                format!("keyof ({}): {:?} is {} in the computed type, the operand says {}", label, v, got, want),
+                                json!({"computed": format!("keyof ({})", label), "value": format!("{:?}", v)}),
+                            );
+                            break;
+                        }
+                    }
+                }
+            }
+        }
+    }
     json!({
-        "violations": out.violations, "violation_counts": out.seen_keys, "violation_cases": out.cases,
+        "violations": out.violations, "violation_counts": out.seen_keys, "violation_cases": out.cases, "keyof_model_checks": keyof_model_checks,
         "computed_types": computed, "evaluations": evals, "indexed_access_model_checks": model_checks, "operand_types": nterms, "distinct_nontrivial_rows": rows.len(),
         "pairs_where_postprocessing_widened": widened, "samples": samples, "postprocessing_errors_become_diagnostics": postprocess_errors, "reconverted_same_type": reconverted_same, "reconverted_not_same_type": reconverted_differs,
     })
